@@ -28,6 +28,10 @@ pub struct Exp {
     pub skip: Vec<&'static str>,
     /// leniencies exercised (DESIGN 8.4)
     pub lenient: Vec<&'static str>,
+    /// the operation scrolled the region (set for draw: autowrap at the bottom margin)
+    pub scrolled: bool,
+    /// width change: only the stops below this column (visible before and after) are compared
+    pub tab_limit: Option<u32>,
 }
 
 fn n1(n: &Option<u32>) -> u32 {
@@ -295,7 +299,7 @@ struct DrawFlags {
     nfc: bool,
 }
 
-fn draw_with(pre: &Snapshot, text: &[char], f: &DrawFlags, used: &mut [bool; 4]) -> Snapshot {
+fn draw_with(pre: &Snapshot, text: &[char], f: &DrawFlags, used: &mut [bool; 4], scrolled: &mut bool) -> Snapshot {
     let mut s = pre.clone();
     let c = s.columns;
     for &ch in text {
@@ -304,6 +308,9 @@ fn draw_with(pre: &Snapshot, text: &[char], f: &DrawFlags, used: &mut [bool; 4])
             if s.has(DECAWM) {
                 if w > 0 || f.zw_wraps {
                     s.x = 0;
+                    if s.y == s.region().1 {
+                        *scrolled = true;
+                    }
                     linefeed(&mut s);
                 }
                 if w == 0 {
@@ -401,7 +408,11 @@ fn draw(pre: &Snapshot, text: &str, e: &mut Exp) {
             nfc: bits & 8 == 0,
         };
         let mut u = [false; 4];
-        let s = draw_with(pre, &chars, &f, &mut u);
+        let mut scrolled = false;
+        let s = draw_with(pre, &chars, &f, &mut u, &mut scrolled);
+        if scrolled {
+            e.scrolled = true;
+        }
         if bits == 0 {
             used = u;
         }
@@ -482,6 +493,7 @@ fn set_reset_mode(pre: &Snapshot, list: &[u32], private: bool, set: bool, e: &mu
                 resize_grid(&mut s, l, c2);
                 s.margins = None;
                 e.skip.push("tabstops");
+                e.tab_limit = Some(old_c.min(c2));
             }
         }
         home(&mut s);
@@ -872,6 +884,7 @@ pub fn expect(pre: &Snapshot, op: &Op) -> Exp {
                 e.cursor_free = true;
                 e.dirty_all = true;
                 e.skip.push("tabstops");
+                e.tab_limit = Some(c.min(c2));
                 e.alts.push(s);
             }
         }
@@ -891,6 +904,14 @@ pub fn judge(e: &Exp, post: &Snapshot) -> Option<String> {
     let mut first: Option<String> = None;
     let mut skip: Vec<&str> = vec!["dirty"];
     skip.extend(e.skip.iter());
+    if let (Some(lim), Some(a)) = (e.tab_limit, e.alts.first()) {
+        // stops visible both before and after a width change must survive it
+        let want: Vec<u32> = a.tabstops.iter().copied().filter(|t| *t < lim).collect();
+        let got: Vec<u32> = post.tabstops.iter().copied().filter(|t| *t < lim).collect();
+        if want != got && !e.mode_only {
+            return Some(format!("tab stops below column {} changed by a width change: {:?} vs expected {:?}", lim, got, want));
+        }
+    }
     for a in &e.alts {
         let d = if e.mode_only {
             if a.mode != post.mode {
